@@ -6,14 +6,14 @@ from ..common import hexs
 LEAN_MODULES = ["Op2Proofs.Props.C17"]
 RULE = ("archives (VOL and CLM, built by the library itself) with 0..6 members; every member name queried as-is, upper, lower, "
         "mixed case, with a leading './', with a directory prefix, plus absent names; out-of-range indices count, count+1, 2^32, "
-        "2^64-1 on every per-member call; resource directories with loose files, a sub-directory, a directory named like an "
+        "2^64-1 on every per-member call, and on reference-encoded VOLs whose index table has unused trailing slots every index from count to beyond the slot count on name/size/kind/stream/extract; resource directories with loose files, a sub-directory, a directory named like an "
         "archive, 0..2 VOL and 0..1 CLM archives with overlapping member names and loose files shadowing members in other letter "
         "cases; queries GetResourceStream (both access modes, rooted names), GetAllFilenamesOfType (extension with/without dot, "
         "both cases), GetAllFilenames (literal / anchored patterns), FindContainingArchivePath, GetArchiveFilenames. Direct oracles "
         "are computed in Python from the layout alone. distinct = distinct protocol lines")
 PROVED = ("contains <-> index succeeds; the index found names a member equal to the query under PathsAreEqual; lookup is invariant "
           "under PathsAreEqual-equivalent spellings of the query (letter case, leading ./); duplicate-free => index(name i) = i; "
-          "out-of-range indices refused by name/stream; resolution stated outright: rooted => refused, loose file => its bytes, else "
+          "out-of-range indices refused by name/stream, and on the VOL object (member count < slot count allowed) by name/size/kind/stream/extract (C17_vol_out_of_range); resolution stated outright: rooted => refused, loose file => its bytes, else "
           "(access) first archive containing => that member's bytes, else none, access off => loose only; a reported containing "
           "archive contains the name; type listing = loose names with that extension followed by members admitted one by one unless "
           "an already listed name equals them ignoring case (no two admitted members equal ignoring case; loose names all kept); "
@@ -195,6 +195,18 @@ def cases(tier, rng):
         for n, _ in ms: qs += rng.sample(variants(n), 3)
         qs += [rng.choice(pool) for _ in range(2)] + ["nope", "dir/" + (ms[0][0] if ms else "a"), "x" + (ms[0][0] if ms else "a")]
         yield lookup_case(kind, ms, qs, f"lookup-{'clm' if kind == 'c' else 'vol'}")
+    # out-of-range indices on archives the library did not write: the index table of a VOL may have unused trailing slots, so the
+    # number of slots exceeds the member count — every per-member call must still refuse every index >= GetCount()
+    from . import volref as V
+    for unused in ((1, 2, 5, 9) if thorough else (1, 3)):
+        for k in (0, 1, 3):
+            ms = [V.Member(bytes([97 + i]) + b".dat", bytes(rng.randrange(256) for _ in range(rng.choice([1, 4, 7])))) for i in range(k)]
+            arc = V.encode(ms, unused=unused, slack=0)
+            ops = ["c"]; exp = ["open:ok", str(k)]
+            for i in sorted({k, k + 1, k + unused - 1, k + unused, 1 << 32, (1 << 64) - 1}):
+                for o in "nskre": ops.append(f"{o}{i}"); exp.append("err")
+            for i in range(k): ops += [f"n{i}", f"s{i}"]; exp += [hexs(ms[i].name), str(len(ms[i].payload))]
+            yield Case(f"!vol.open {hexs(arc)} L {','.join(ops)}", expect=",".join(exp), tag="out-of-range-with-unused-slots")
     # resource resolution
     for it in range(300 if thorough else 90):
         overlap = it % 3 == 0       # member names shared between archives: answers may depend on the load order -> Python oracle only
